@@ -27,7 +27,7 @@ def _pairs(mmax):
 PAIRS_QUICK = _pairs(6)
 PAIRS_THOROUGH = _pairs(12)
 BUDGET = {
-    "quick": {"runs": len(PAIRS_QUICK) * 24, "wall": 300, "chunk": 13},
+    "quick": {"runs": len(PAIRS_QUICK) * 60, "wall": 300, "chunk": 13},
     "thorough": {"runs": len(PAIRS_THOROUGH) * 120, "wall": 3000, "chunk": 57},
 }
 RULE = (
